@@ -268,7 +268,7 @@ class BuiltinsMixin:
                 self.unsupported(f'symbolic *args to builtin {name}', node)
             args = list(args) + its
         if dstar is not None:
-            if name in ('functools.partial', 'ft.partial'):
+            if name in ('functools.partial', 'ft.partial') or getattr(h, 'takes_dstar', False):
                 return h(args, kwargs, dstar=dstar)
             ks = self.concrete_keys(dstar)
             if ks is None:
